@@ -4,6 +4,9 @@
 // compiled only under the build tag "verif").
 package match
 
+// Every function under contract in this package also serves the properties that depend on the whole package.
+//@ package-props C01 C04 C06 C08
+
 // notified[c]: how many times client c's Update callback has been invoked.
 // visitedB[b]: trie node b has been entered by update.
 //@ ghost notified gmap[any]int
@@ -118,7 +121,7 @@ package match
 //@   note the returned remove closure keeps the query slice: the caller must not write to its backing array afterwards
 //@   modifies heap(branch.clients), heap(branch.children), mapheap(m.tree.clients), mapheap(m.tree.children)
 //@   ensures res0 != nil && TrieWf()
-//@   assert at call (*branch).addQuery#0: [registers-the-given-query C06] arg0 == m.tree && arg1 == query && arg2 == client && wheld(m.mu)
+//@   assert at call (*branch).addQuery#0: [registers-the-given-query C06] arg0 == m.tree && arg1 == old(query) && arg2 == old(client) && wheld(m.mu)
 
 // The remove closure removes exactly the query/client pair it was created for, under the write lock.
 //@ func (*Match).AddQuery$1
